@@ -684,3 +684,14 @@ package xpath
 // Reporting a compile error never panics, whatever the lexer left as the unparsed remainder.
 //@ func (*CommonLex).CreateProgram
 //@   requires lexer != nil && lexer.progBldr != nil
+
+// Compile errors stick (C04): once an unsupported construct or a wrong number of arguments has been recorded,
+// nothing the parser does afterwards clears it; a call with the wrong number of arguments always records one.
+//@ func (*ProgBuilder).UnsupportedName
+//@   requires progBldr != nil
+//@   modifies progBldr.parseErr
+//@   ensures progBldr.parseErr != nil
+//@ func (*ProgBuilder).CodeBltin
+//@   requires progBldr != nil && sym != nil
+//@   modifies *
+//@   ensures implies(old(progBldr.parseErr) != nil || numArgs != old(len(sym.argTypeCheckers)), progBldr.parseErr != nil)
